@@ -4,6 +4,9 @@
    *_matters lemmas show that the facts are not decorative (another value gives another function). *)
 From Coq Require Import ZArith List Bool Lia.
 From FxV Require Import lib.Dec model.M_Gov model.M_GovShape gen.Gen_GovShape proofs.P_Gov.
+(* not used below: makes the correspondence glue build before this file, so that the differential
+   run still works when a generated fact breaks one of these theorems *)
+From FxV Require model.M_GovCorr.
 Import ListNotations.
 Open Scope Z_scope.
 
